@@ -48,7 +48,8 @@ def summary(fr):
 
 def check(case):
     from perception_eval.common.dataset import FrameGroundTruth
-    targets = ["car", "pedestrian", "bicycle"]
+    # (a label may be listed twice - e.g. car + truck merged into car by merge_similar_labels -: it is still one label, pooled and counted once)
+    targets = case.get("targets") or ["car", "pedestrian", "bicycle"]
     mgr, ev = manager("detection", targets)
     frames_gt = []
     # objects given in the ego frame or (same scene) in the map frame with the frame's ego pose: the evaluation then looks transforms up in the frame's registry
@@ -119,7 +120,7 @@ def check(case):
     for r in mgr.frame_results:
         d = divide_objects(r.object_results, labs)
         g = divide_objects_to_num(r.frame_ground_truth.objects, labs)
-        for l in labs:
+        for l in flat:
             flat[l] += d[l]
             ngt[l] += g[l]
     ms = MetricsScore(ev.metrics_config, used_frame=[int(r.frame_name) for r in mgr.frame_results])
@@ -128,11 +129,11 @@ def check(case):
         for a, b in zip(list(m_scene.aps) + list(m_scene.aphs), list(m_flat.aps) + list(m_flat.aphs)):
             if a.ap != b.ap and abs(a.ap - b.ap) > 1e-12:
                 return (f"scene {type(a.tp_metrics).__name__} score of {[str(t) for t in a.target_labels]} ({m_scene.matching_mode}) is {a.ap}; the same results ranked together as one list score {b.ap}")
-    want = sum(1 for r in mgr.frame_results for o in r.frame_ground_truth.objects if o.semantic_label.label.value in targets)
     for m in sc.maps:
-        got = sum(a.num_ground_truth for a in m.aps)
-        if got != want:
-            return f"scene ground-truth count {got} ({m.matching_mode}) does not add up over the frames ({want})"
+        for a in m.aps:
+            want = sum(1 for r in mgr.frame_results for o in r.frame_ground_truth.objects if o.semantic_label.label is a.target_labels[0])
+            if a.num_ground_truth != want:
+                return f"scene ground-truth count of {a.target_labels[0].value} is {a.num_ground_truth} ({m.matching_mode}); over the frames there are {want}"
     return None
 
 
@@ -199,7 +200,10 @@ def gen(rnd):
     calls.append(calls[0])
     stamps = [0, 50000, 100000, 140000, 150000, 260000]
     lookups = [[(rnd.choice(stamps), rnd.random() < 0.7) for _ in range(rnd.randint(0, 2))] for _ in range(3)]
-    return dict(frames=fs, calls=calls, lookups=lookups, frame=rnd.choice(["base_link", "map"]))
+    case = dict(frames=fs, calls=calls, lookups=lookups, frame=rnd.choice(["base_link", "map"]))
+    if rnd.random() < 0.25:
+        case["targets"] = ["car", "car", "pedestrian"]
+    return case
 
 
 def search(item, seed):
